@@ -214,7 +214,7 @@ static void put_str (Buf *o, const char *s)
 }
 
 /* canonical form of a received message */
-static void put_msg (Buf *o, DBusMessage *m)
+static void put_msg (Buf *o, DBusMessage *m, int receiver)
 {
   int t = dbus_message_get_type (m);
   const char *snd = dbus_message_get_sender (m);
@@ -230,7 +230,8 @@ static void put_msg (Buf *o, DBusMessage *m)
     {
       int j, found = 0;
       if (rs == cur_serial && snd != NULL && strcmp (snd, DBUS_SERVICE_DBUS) == 0) { bput (o, "@req"); found = 1; }
-      for (j = 0; j < ncalls && !found; j++) if (calls[j].serial == rs) { bput (o, "@t%d", calls[j].tag); found = 1; }
+      /* serials are per connection: a reply answers a call of the connection that receives it */
+      for (j = ncalls - 1; j >= 0 && !found; j--) if (calls[j].serial == rs && calls[j].caller == receiver) { bput (o, "@t%d", calls[j].tag); found = 1; }
       if (!found) bput (o, "@?");
     }
   bput (o, "(");
@@ -264,7 +265,7 @@ static void drain (Buf *o)
         {
           if (dbus_message_is_signal (m, DBUS_INTERFACE_LOCAL, "Disconnected")) { bput (o, "%sc%d:DISCONNECTED", any ? ";" : "", i); any = 1; first = 0; dbus_message_unref (m); continue; }
           if (first) { bput (o, "%sc%d:", any ? ";" : "", i); any = 1; first = 0; } else bput (o, "+");
-          put_msg (o, m);
+          put_msg (o, m, i);
           dbus_message_unref (m);
         }
     }
@@ -541,6 +542,7 @@ static void run_history (char **ops, int nops)
 }
 
 /* the child: runs k = start_k, start_k+1, ... each on its own bus; one line "K <k> <failed> <outcome>" per k on [out] */
+static int leaked_so_far;
 static void child_run (char **ops, int nops, const char *testop, int start_k, int d, int want_base, FILE *out)
 {
   Buf cur = { NULL, 0, 0 }, a = { NULL, 0, 0 }, tmp = { NULL, 0, 0 };
@@ -573,7 +575,9 @@ static void child_run (char **ops, int nops, const char *testop, int start_k, in
       bput (&cur, "]");
       bus_down ();
       dbus_shutdown ();
-      leak = _dbus_get_malloc_blocks_outstanding ();
+      /* blocks this k left behind (what earlier k of this child leaked is not charged again) */
+      leak = _dbus_get_malloc_blocks_outstanding () - leaked_so_far;
+      leaked_so_far += leak;
       bput (&cur, "|leak=%d", leak);
       fprintf (out, "K %d %d %s\n", k, failed, cur.b); fflush (out);
       if (!failed) { fprintf (out, "N %ld\n", nalloc); fflush (out); break; }
